@@ -52,16 +52,22 @@ def run(tier):
     rnd = random.Random(seed())
     reps = 6 if tier == "thorough" else 2
     cases = []
+    grp = 0
     for a in sorted(abstract, key=lambda a: (a["N"], a["objno"], a["multi"])):
         for rep in range(reps):
             objs = [mk_obj(k + 1, rnd.choice(CLASSES) if rep else CLASSES[(k + a["objno"] + 1) % len(CLASSES)], rnd) for k in range(a["N"])]
-            opts = []
-            if a["multi"] != -1: opts.append(rnd.choice(["obj:multi=%d", "multiobj=%d"]) % a["multi"])
-            if a["objno"] != -1: opts.append(rnd.choice(["obj:no=%d", "objno=%d"]) % a["objno"])
-            rnd.shuffle(opts)
-            cases.append({"id": len(cases), "model": nl_model(objs), "opts": opts,
-                          "answer": "status 0 ok\nprimal 1 1 1\nobjvals 1\n",
-                          "abs": dict(a, objs=objs)})
+            om = rnd.choice(["obj:multi=%d", "multiobj=%d"]) % a["multi"] if a["multi"] != -1 else None
+            on = rnd.choice(["obj:no=%d", "objno=%d"]) % a["objno"] if a["objno"] != -1 else None
+            grp += 1
+            variants = []
+            if om and on:       # both given: every order, and split over environment / command line
+                variants = [([om, on], {}), ([on, om], {}), ([om], {"scripted_options": on}), ([on], {"scripted_options": om})]
+            else:
+                variants = [([o for o in (om, on) if o], {})]
+            for opts, env in variants:
+                cases.append({"id": len(cases), "model": nl_model(objs), "opts": opts, "env": env,
+                              "answer": "status 0 ok\nprimal 1 1 1\nobjvals 1\n",
+                              "abs": dict(a, objs=objs, grp=grp)})
     exe = targets.get("h_drv")
     results = drv.run_cases(exe, PID, cases)
     trace = os.path.join(outdir(PID), "trace-%s.ndjson" % tier)
